@@ -89,7 +89,7 @@ fn observed_events(events: &[ExecutorEvent]) -> (Vec<MEvent>, BTreeMap<Nonce, Me
 pub fn run(args: &Args, report: &Report) {
     let ctx = Ctx::new(args, report);
     let shards = args.by_tier(16, 32);
-    let sessions = args.by_tier(5, 60);
+    let sessions = args.by_tier(40, 480);
     let blocks = args.by_tier(14u32, 20);
     let c = ctx.clone();
     for_each_session(args, report, shards, sessions, move |case, rng| {
@@ -185,8 +185,8 @@ pub fn run(args: &Args, report: &Report) {
                 break;
             }
             if msgs_after != model.messages {
-                let a: Vec<_> = msgs_after.keys().filter(|k| !model.messages.contains_key(k)).take(3).collect();
-                let b: Vec<_> = model.messages.keys().filter(|k| !msgs_after.contains_key(k)).take(3).collect();
+                let a: Vec<_> = msgs_after.keys().filter(|k| !model.messages.contains_key(*k)).take(3).collect();
+                let b: Vec<_> = model.messages.keys().filter(|k| !msgs_after.contains_key(*k)).take(3).collect();
                 c.violation(
                     "messages_table_differs_from_model",
                     format!("after block {}: only in table {a:?}; only in model {b:?}", plan.height),
@@ -284,8 +284,8 @@ pub fn run(args: &Args, report: &Report) {
                     replay(),
                 );
             }
-            let m_added: Vec<Nonce> = msgs_after.keys().filter(|k| !msgs_before.contains_key(k)).cloned().collect();
-            let m_removed: Vec<Nonce> = msgs_before.keys().filter(|k| !msgs_after.contains_key(k)).cloned().collect();
+            let m_added: Vec<Nonce> = msgs_after.keys().filter(|k| !msgs_before.contains_key(*k)).cloned().collect();
+            let m_removed: Vec<Nonce> = msgs_before.keys().filter(|k| !msgs_after.contains_key(*k)).cloned().collect();
             let mut net_imp: Vec<Nonce> = imported.iter().filter(|n| !msg_consumed.contains(n)).cloned().collect();
             let mut net_con: Vec<Nonce> = msg_consumed.iter().filter(|n| !imported.contains(n)).cloned().collect();
             net_imp.sort();
@@ -343,15 +343,17 @@ pub fn run(args: &Args, report: &Report) {
             }
         }
     });
-    report.require("c02.nontrivial_blocks", args.by_tier(400, 4_000));
-    report.require("c02.coins_consumed", args.by_tier(1_500, 15_000));
-    report.require("c02.coins_created", args.by_tier(1_500, 15_000));
-    report.require("c02.messages_imported", args.by_tier(100, 1_000));
-    report.require("c02.messages_consumed", args.by_tier(60, 600));
-    report.require("c02.zero_amount_outputs_not_created", args.by_tier(200, 2_000));
-    report.require("c02.outcome.skip:TransactionValidity.CoinDoesNotExist", args.by_tier(30, 300));
-    report.require("c02.outcome.skip:TransactionValidity.MessageSpendTooEarly", args.by_tier(5, 50));
-    report.require("c02.failed_txs_with_message_inputs", args.by_tier(5, 50));
+    if args.replay.is_none() {
+        report.require("c02.nontrivial_blocks", args.by_tier(400, 4_000));
+        report.require("c02.coins_consumed", args.by_tier(1_500, 15_000));
+        report.require("c02.coins_created", args.by_tier(1_500, 15_000));
+        report.require("c02.messages_imported", args.by_tier(100, 1_000));
+        report.require("c02.messages_consumed", args.by_tier(60, 600));
+        report.require("c02.zero_amount_outputs_not_created", args.by_tier(200, 2_000));
+        report.require("c02.outcome.skip:TransactionValidity.CoinDoesNotExist", args.by_tier(30, 300));
+        report.require("c02.outcome.skip:TransactionValidity.MessageSpendTooEarly", args.by_tier(5, 50));
+        report.require("c02.failed_txs_with_message_inputs", args.by_tier(5, 50));
+    }
     report.finish(
         args,
         "exploration",
